@@ -61,6 +61,14 @@ def check(model: Model, rep: Report, tier: str):
         front_delegation(model, rep, "C02.L10", "DeclarativeCircuit", "operations", "decomposed_operations", True, "the listing read from a circuit is not always the current expansion of its structure")
     with rep.isolated():
         l15(model, rep)
+    from .c01 import r7 as _r7
+    from .c11 import f1 as _f1
+    from .common import share_rule as _sh2
+    with rep.isolated():
+        _sh2(rep, model, _r7, "C02.L16", "unrolling appends the NODES of each copy (nested blocks with their own counts included), every one of them (= C01.R7): a copy appended as its "
+             "flat listing loses the counts of the blocks inside it")
+    with rep.isolated():
+        _sh2(rep, model, _f1, "C02.L17", "flatten rebuilds the graph from the complete listing, read BEFORE the old graph is replaced (= C11.F1)")
     from .c05 import _k1_k2, _k3
     from .common import share_rule
     with rep.isolated():
@@ -433,9 +441,8 @@ def l2(model: Model, rep: Report):
                 if post is None:
                     why = "no __post_init__ increments the counter"
                     continue
-                incs = [st for st in post.body if isinstance(st, ast.AugAssign) and isinstance(st.op, ast.Add)
-                        and ast.unparse(st.target) == f"{cname}.{counter}" and isinstance(st.value, ast.Constant) and st.value.value > 0]
-                ok = len(incs) == 1
+                from .common import counter_incremented
+                ok = counter_incremented(model, post, cname, counter)
                 if not ok:
                     why = f"{post.qualname} does not increment {cname}.{counter} unconditionally"
                 else:
